@@ -466,7 +466,7 @@ func runC18(r *evid.Run) {
 	r.Rule = "one evaluation = one FollowLinks call (plus, for single requests, one real filtered transfer and re-resolution in the copy); non-trivial = trees with at least one symlink; states = distinct cases"
 	r.Assume = []string{"termination is judged by a budget of 2000 directory walks (a terminating resolution of these trees needs < 100)", "the result is read as include patterns with moby/patternmatcher's non-incremental entry point"}
 	trees := c18Trees(r.Tier)
-	reqs := []string{"a", "a/b", "a-b", "d", "d/l", "d/s", "d/s/x", "l", "m", "*", "d/*", "*/b", "d/*/x", "nope", "/", "a/../l", "d/s/../l", "l/*", "m/l*", "l/s/x"}
+	reqs := []string{"a", "a/b", "a-b", "d", "d/l", "d/s", "d/s/x", "l", "m", "*", "d/*", "*/b", "d/*/x", "nope", "/", "a/../l", "d/s/../l", "l/*", "m/l*", "l/s/x", "d/[ls]", "[lm]"}
 	var lists [][]string
 	for _, a := range reqs {
 		lists = append(lists, []string{a})
